@@ -34,7 +34,7 @@ package bcl
 //@ invariant pool (p *parser): forall k string :: has(p.identRefs, k) ==> 0 <= p.identRefs[k] && p.identRefs[k] < len(p.prog.constants) && p.prog.constants[p.identRefs[k]] == VStr(k)
 //@ invariant [C09,C06] storable_pool (p *parser): forall i int :: 0 <= i && i < len(p.prog.constants) ==> storable(p.prog.constants[i])
 //@ invariant tok_range (p *parser): 0 <= p.prev.typ && p.prev.typ < tMAX && 0 <= p.current.typ && p.current.typ < tMAX
-//@ invariant fin (p *parser): (g.lastfin ==> p.current.typ <= tEOF) && !g.lasterr
+//@ invariant fin (p *parser): (g.lastfin ==> p.current.typ <= tEOF) && !g.lasterr && (g.consumed > 0 ==> g.lastfin == (p.current.typ <= tEOF))
 //@ invariant [C17] panic_err (p *parser): p.panicMode ==> p.hadError
 //@ invariant [C17] lexfail_err (p *parser): p.hadLexFail ==> p.hadError
 //@ invariant [C17] diag_err (p *parser): (p.hadError <==> g.diags > 0) && g.diags >= 0
@@ -220,16 +220,20 @@ package bcl
 //@ group C06,C17,C10
 //@ func (*parser).advance
 //@   ensures prev_is_old_current: p.prev == old(p.current)
+//@   ensures a_token_has_been_received: g.consumed > 0
+//@   ensures [C11,C17] nothing_is_received_after_a_finalizer: old(g.lastfin) ==> g.lastfin && g.consumed == old(g.consumed)
 //@   ensures progress: g.consumed > old(g.consumed) || old(p.current.typ) <= tEOF
 //@   ensures monotone: g.consumed >= old(g.consumed)
 //@   ensures [C17] new_panic_only_at_fail: p.panicMode == old(p.panicMode) || p.current.typ == tFAIL
 //@   noinv fin
-//@   requires fin_in: (g.lastfin ==> p.current.typ <= tEOF) && !g.lasterr
-//@   ensures fin_out: (g.lastfin ==> p.current.typ <= tEOF) && !g.lasterr
+//@   requires fin_in: (g.lastfin ==> p.current.typ <= tEOF) && !g.lasterr && (g.consumed > 0 ==> g.lastfin == (p.current.typ <= tEOF))
+//@   ensures fin_out: (g.lastfin ==> p.current.typ <= tEOF) && !g.lasterr && (g.consumed > 0 ==> g.lastfin == (p.current.typ <= tEOF))
 //@   loop 1 invariant invs(p)
 //@   loop 1 invariant (g.lastfin ==> p.current.typ <= tEOF) && (g.lasterr ==> p.current.typ == tERR) && (p.panicMode == old(p.panicMode) || g.lasterr)
 //@   loop 1 invariant p.prev == old(p.current) && g.consumed >= old(g.consumed) && (g.lasterr ==> p.hadError)
 //@   loop 1 invariant g.consumed > old(g.consumed) || g.lastfin == old(g.lastfin)
+//@   loop 1 invariant old(g.lastfin) ==> g.lastfin && g.consumed == old(g.consumed)
+//@   loop 1 invariant (g.consumed > old(g.consumed) ==> g.lastfin == (p.current.typ <= tEOF)) && (g.consumed == old(g.consumed) ==> p.current == old(p.current))
 //@   loop 1 increases [C06,C17,C11] g.consumed
 //
 // consume: the one primitive that takes an expected token. Callers execute its body (inline);
@@ -237,7 +241,7 @@ package bcl
 //@ func (*parser).consume
 //@   inline
 //@   noinv fin
-//@   requires fin_in: (g.lastfin ==> p.current.typ <= tEOF) && !g.lasterr
+//@   requires fin_in: (g.lastfin ==> p.current.typ <= tEOF) && !g.lasterr && (g.consumed > 0 ==> g.lastfin == (p.current.typ <= tEOF))
 //@   ensures [C17] only_the_expected_token_is_taken: g.consumed > old(g.consumed) ==> old(p.current.typ) == typ
 //@   ensures [C17] a_mismatch_is_reported_and_the_token_left_in_place: old(p.current.typ) != typ ==> p.hadError && p.panicMode && g.consumed == old(g.consumed) && p.current == old(p.current) && p.prev == old(p.prev)
 //@   ensures [C17] the_expected_token_becomes_the_previous_one: old(p.current.typ) == typ ==> p.prev == old(p.current)
@@ -245,7 +249,7 @@ package bcl
 //@ func (*parser).match
 //@   inline
 //@   noinv fin
-//@   requires fin_in: (g.lastfin ==> p.current.typ <= tEOF) && !g.lasterr
+//@   requires fin_in: (g.lastfin ==> p.current.typ <= tEOF) && !g.lasterr && (g.consumed > 0 ==> g.lastfin == (p.current.typ <= tEOF))
 //@   ensures [C17] taken_exactly_if_it_is_the_given_token: result == (old(p.current.typ) == typ)
 //@   ensures [C17] otherwise_nothing_moves: !result ==> g.consumed == old(g.consumed) && p.current == old(p.current) && p.prev == old(p.prev) && p.hadError == old(p.hadError) && p.panicMode == old(p.panicMode)
 //@   ensures [C17] the_taken_token_becomes_the_previous_one: result ==> p.prev == old(p.current)
@@ -515,12 +519,14 @@ package bcl
 //@   assert [C17] a_terminator_never_follows_a_terminator: at match.advance#1: p.hadError || p.current.typ != tSEMICOLON || p.prev.typ != tSEMICOLON
 //@   assert [C17,C20] the_optional_terminator_comes_after_a_statement: at match.advance#1: p.current.typ != tSEMICOLON || g.consumed > prev(g.consumed)
 //@   ghostinit sd = 0; pend = F0(); bd = 0; uninit = 0; njopen = 0; maxtarget = 0; consumed = 0; lastfin = false; lasterr = false; diags = 0; lx_fin = false; lx_err = false; ev_close_tokens = 0; ev_bytes_inputs = 0; ev_send_tokens = 0; ev_recv_tokens = 0; ev_closed_inputs = false; bk = 2
+//@   ensures [C11,C07,C17] parsing_stops_only_at_the_end_of_the_token_stream: g.lastfin
 //@   ensures [C17] error_iff_diagnostic: ((result2 != nil) <==> g.diags > 0) && g.diags >= 0
 //@   ensures result0 != nil
 //@   ensures [C19,C03,C09,C06] complete_when_ok: result2 == nil ==> dumpable(result0)
 //@   loop 1 invariant invs(p)
 //@   loop 1 invariant p.scope.depth == 0 && g.uninit == 0 && (p.hadError || (g.pend == F0() && g.sd == p.scope.localCount && g.bd == 0 && g.njopen == 0))
 //@   loop 1 invariant [C17] toplevel_recovered: !p.panicMode || p.current.typ == tFAIL
+//@   loop 1 invariant g.consumed > 0
 //@   loop 1 increases [C06,C17,C11] g.consumed
 
 // ---------------------------------------------------------------------------
